@@ -155,6 +155,28 @@ BLOCKS = """blocks:
             ip: duct.op
             mult: 1.0
             op: 16.8
+    shield: &block_shield
+        duct:
+            shape: Hexagon
+            material: HT9
+            Tinput: 25.0
+            Thot: 450.0
+            ip: 16.0
+            mult: 1.0
+            op: 16.7
+        coolant:
+            shape: DerivedShape
+            material: Sodium
+            Tinput: 450.0
+            Thot: 450.0
+        intercoolant:
+            shape: Hexagon
+            material: Sodium
+            Tinput: 450.0
+            Thot: 450.0
+            ip: duct.op
+            mult: 1.0
+            op: 16.8
     plenum: &block_plenum
         axial expansion target component: clad
         clad:
@@ -221,6 +243,26 @@ def _cartesian_blocks(text):
     )
 
 
+def _in_block(text, anchor, old, new):
+    """Replace old by new inside one block design (from its anchor line to the next design)."""
+    start = text.index(anchor)
+    nxt = text.find(": &block_", start + len(anchor))
+    end = text.rfind("\n", 0, nxt) if nxt >= 0 else len(text)
+    body = text[start:end]
+    assert old in body, (anchor, old)
+    return text[:start] + body.replace(old, new) + text[end:]
+
+
+RECT_DUCT = (
+    "            shape: Rectangle\n            material: HT9\n            Tinput: 25.0\n            Thot: 450.0\n"
+    "            lengthInner: 16.0\n            lengthOuter: 16.7\n            widthInner: 16.0\n            mult: 1.0\n            widthOuter: 16.7\n"
+)
+SQUARE_DUCT = (
+    "            shape: Square\n            material: HT9\n            Tinput: 25.0\n            Thot: 450.0\n"
+    "            widthInner: 16.0\n            mult: 1.0\n            widthOuter: 16.7\n"
+)
+
+
 def blueprint_text(spec):
     """spec: {rings, symmetry ('full'|'third periodic'), cells: [[i,j,type],...] or None,
     nfuel (fuel blocks per assembly), heights [..], plate (bool), plenum (bool), sfp (bool),
@@ -229,7 +271,7 @@ def blueprint_text(spec):
     plate = bool(spec.get("plate", False))
     plenum = bool(spec.get("plenum", False))
     fuel_anchor = "*block_pin_fuel" if spec.get("pins") else "*block_fuel"
-    blocks = (["*block_grid_plate"] if plate else []) + [fuel_anchor] * nfuel + (["*block_plenum"] if plenum else [])
+    blocks = (["*block_grid_plate"] if plate else []) + [fuel_anchor] * nfuel + (["*block_shield"] if spec.get("shield") else []) + (["*block_plenum"] if plenum else [])
     if spec.get("dummy"):
         blocks.append("*block_dummy")
     nb = len(blocks)
@@ -238,6 +280,11 @@ def blueprint_text(spec):
     xs = ["A"] * nb
     cart = spec.get("geom") == "cartesian"
     blocks_text = _cartesian_blocks(BLOCKS) if cart else BLOCKS
+    if cart and spec.get("rect_duct"):
+        # the fuel blocks' duct is the same square, declared as a Rectangle (a Square is a Rectangle
+        # subclass; axial linkage is between components of identical type only)
+        blocks_text = _in_block(blocks_text, "    fuel: &block_fuel", SQUARE_DUCT, RECT_DUCT)
+        blocks_text = _in_block(blocks_text, "    fuel: &block_fuel", "widthInner: duct.widthOuter", "widthInner: duct.widthOuter")
     if spec.get("fuel_target"):
         # a designated (non-default) axial-expansion target on the fuel blocks
         blocks_text = blocks_text.replace("    fuel: &block_fuel\n", f"    fuel: &block_fuel\n        axial expansion target component: {spec['fuel_target']}\n")
